@@ -2,7 +2,7 @@ SPECIFICATION Spec
 VIEW View
 CONSTANTS
   Kinds = {"lt", "rest"}
-  Users = {"alice", "tenant:alice", ""}
+  Users = {"alice", "tenant:alice", "", "bob%40example.org"}
   Durs <- MCDurs
   Ticks = {3, 10}
   Muts <- MCMuts
